@@ -13,7 +13,7 @@
 (* ind, sub : key/value lists [k |-> Seq(STRING), v |-> Seq(Val)]          *)
 (*       -- Candle.indicators / Candle.sub_indicators in insertion order   *)
 (***************************************************************************)
-EXTENDS Rat
+EXTENDS Rat, Buckets
 
 NoTs == -2000000000
 HAName == "Heikin-Ashi"
@@ -75,9 +75,6 @@ UnitSecs(u) == CASE u = "S" -> 1 [] u = "T" -> 60 [] u = "H" -> 3600 [] u = "D" 
 ValidUnit(u) == u \in {"S", "T", "H", "D"}
 TfSecs(u, n) == n * UnitSecs(u)
 
-RoundDown(t, tf) == (t \div tf) * tf
-OnTf(t, tf) == t % tf = 0
-\* right-closed, right-labelled bucket (k*tf, (k+1)*tf] -> (k+1)*tf
-Bucket(t, tf) == ((t + tf - 1) \div tf) * tf
+\* RoundDown, OnTf, Bucket and the collapse walk's branch/step on integers: Buckets.tla
 
 =============================================================================
